@@ -249,6 +249,7 @@ func (c *kctx) execOp(i int, op KOp) {
 	L0 := len(k.Ledger)
 	recv0 := c.port.recvCalls
 	nat0 := c.port.naturalEagain
+	sf0 := c.port.sendFailed
 	unsol0 := countConsumed(k, kern.DUnsolicited)
 	leftovers := 0
 	for _, d := range k.Queue {
@@ -352,8 +353,13 @@ func (c *kctx) execOp(i int, op KOp) {
 	}
 	_ = nat0
 
+	sendFailed := c.port.sendFailed - sf0
+	if sendFailed > 0 {
+		c.res.Probes[kpSendErrno]++
+		c.res.Faults[kfSendErr] += sendFailed
+	}
 	if op.K == kClose {
-		c.judgeClose(i, err, reqs, recv0)
+		c.judgeClose(i, err, reqs, recv0, sendFailed > 0)
 		return
 	}
 
@@ -379,6 +385,9 @@ func (c *kctx) execOp(i int, op KOp) {
 		if c.prop == "C17" {
 			if err != nil && len(reqs) == 1 {
 				c.viol("nowait-error", name, "%s(NoWait) returned %v although the request was sent", name, err)
+			}
+			if err == nil && sendFailed > 0 {
+				c.viol("nowait-send-error-swallowed", name, "%s(NoWait): sendto failed but the call returned nil", name)
 			}
 		}
 		return
@@ -410,6 +419,16 @@ func (c *kctx) execOp(i int, op KOp) {
 		}
 	}
 	judge := c.prop == "C08"
+	if sendFailed > 0 {
+		// a request of this call never reached the kernel: it was not acknowledged
+		if err == nil && judge {
+			c.viol("send-error-swallowed", name, "%s returned nil although sendto failed for one of its requests", name)
+		}
+		for _, d := range k.Queue {
+			d.Consumed = true
+		}
+		return
+	}
 	if len(reqs) == 0 {
 		if err == nil && judge {
 			c.viol("success-without-request", name, "%s returned nil but no request reached the kernel", name)
@@ -826,12 +845,22 @@ func (c *kctx) execWaitAcks(i int, auto bool) {
 	c.pending = left
 }
 
-func (c *kctx) judgeClose(i int, err error, reqs []*kern.Request, recv0 int) {
+func (c *kctx) judgeClose(i int, err error, reqs []*kern.Request, recv0 int, sendFailed bool) {
 	c.closes++
 	if c.prop != "C17" {
 		return
 	}
 	if c.closes == 1 {
+		if sendFailed {
+			// the PID-clearing request was lost in sendto: Close may report that
+			if c.k.Closes != 1 {
+				c.viol("socket-closes", strconv.Itoa(c.k.Closes), "after the first Close (whose PID-clearing send failed) the socket was closed %d times", c.k.Closes)
+			}
+			if err == nil {
+				c.viol("close-send-error-swallowed", "Close", "sendto failed inside Close but Close returned nil")
+			}
+			return
+		}
 		c.judgeFirstCloseTraffic(reqs)
 		if err != nil {
 			c.viol("close-error", "Close", "first Close returned %v", err)
@@ -903,6 +932,7 @@ func (c *kctx) concurrentPhase(gb *gateBox) {
 	sc.SysHandler = c.port.sysHandler
 	gb.set(&schedGate{sc: sc})
 	L0 := len(c.k.Ledger)
+	sfBefore := c.port.sendFailed
 	closesBefore := c.closes
 	type sendRec struct {
 		op        KOp
@@ -1004,7 +1034,14 @@ func (c *kctx) concurrentPhase(gb *gateBox) {
 			return
 		}
 		reqs := c.k.Ledger[L0:]
-		if closesBefore == 0 {
+		sendFailed := c.port.sendFailed > sfBefore
+		if sendFailed {
+			c.res.Probes[kpSendErrno]++
+			if nerr > 1 {
+				c.viol("close-error", "Close", "the PID-clearing send failed once but %d of %d concurrent Close calls returned an error", nerr, ncalls)
+			}
+			nerr = 0
+		} else if closesBefore == 0 {
 			c.judgeFirstCloseTraffic(reqs)
 		} else if len(reqs) != 0 {
 			c.viol("close-traffic", "Close", "Close calls after the first sent %d more requests", len(reqs))
